@@ -415,7 +415,7 @@ func checkC16(c *h.Check) {
 	c.Coverage["traces_validated_against_impl"] = schedules
 	c.Coverage["evaluations"] = runs + confRuns
 	c.Coverage["distinct_nontrivial"] = schedules + confs
-	c.Coverage["rule"] = "Part 1 (schedules = iteration orders): wire is rebuilt from the working tree with every `range` over a Go map (sites listed) and typeutil.Map.Iterate rewritten to follow a schedule file; on import-/value-/injector-rich programs the identity schedule gives the baseline (conformance: the plain binary gives the same bytes; replaying twice gives identical bytes and visit trace); then d=0 global policies (reverse / rotate everywhere, per package), d=1 every visit with >=2 entries under all permutations (n<=3, thorough n<=4) or reversal+rotations(+adjacent transpositions in thorough), d=2 (thorough) all pairs of visits reversed. Every run must give byte-identical wire_gen.go. Part 2 (configurations): layout {module, module+vendor, GOPATH, GOPATH+vendor} x checkout location {two directories, one with a space} x invocation {cwd=package '.', cwd=root './app', import-path pattern, './...'} x {alone, with other packages} x repeat 2, the same under an import path with vendor-like fragments and under a single-element import path; three small packages generated alone and together in every order of the patterns, with and without a short header file: all outputs byte-identical, no scratch path / user / date in the bytes."
+	c.Coverage["rule"] = "Part 1 (schedules = iteration orders): wire is rebuilt from the working tree with every `range` over a Go map (sites listed) and typeutil.Map.Iterate rewritten to follow a schedule file; on import-/value-/injector-rich programs the identity schedule gives the baseline (conformance: the plain binary gives the same bytes; replaying twice gives identical bytes and visit trace); then d=0 global policies (reverse / rotate everywhere, per package), d=1 every visit with >=2 entries under all permutations (n<=3, thorough n<=4) or reversal+rotations(+adjacent transpositions in thorough), d=2 (thorough) all pairs of visits reversed. Every run must give byte-identical wire_gen.go. Part 2 (configurations): layout {module, module+vendor, GOPATH, GOPATH+vendor} x checkout location {two directories, one with a space} x invocation {cwd=package '.', cwd=root './app', import-path pattern, './...'} x {alone, with other packages} x repeat 2, the same under an import path with vendor-like fragments and under a single-element import path; three small packages (sharing struct, array and pointer result types of fallible injectors that each package spells differently) generated alone and together in every order of the patterns, with and without a short header file: all outputs byte-identical, no scratch path / user / date in the bytes."
 	c.Samples = append(c.Samples, map[string]interface{}{"schedule_example": "wire 12 2 0 1   (visit 12 of package wire iterates its 3 canonically sorted entries in the order 2,0,1)", "sites": siteList})
 	c.Assumptions = append(c.Assumptions, "goroutine scheduling inside go/packages and the go list subprocess are not intercepted; their effect is observed only through the repeated configuration runs", "canonical order of typeutil.Map entries is by types.TypeString (ties keep bucket order)")
 	if schedules < 20 && c.Only == "" {
@@ -632,6 +632,22 @@ func c16Together(c *h.Check, viol func(id, sym, detail string, files map[string]
 	for i, n := range names {
 		files[n+"/defs.go"] = fmt.Sprintf("package %s\n\ntype T%d struct{ N int }\n\nfunc New%d() T%d { return T%d{N: %d} }\n", n, i, i, i, i, i)
 		files[n+"/wire.go"] = fmt.Sprintf("//go:build wireinject\n// +build wireinject\n\npackage %s\n\nimport \"github.com/google/wire\"\n\nfunc Init%d() T%d {\n\tpanic(wire.Build(New%d))\n}\n", n, i, i, i)
+	}
+	// types shared between the packages and spelled differently in each (Shared / alpha.Shared / al.Shared), as results of
+	// fallible injectors (zero-value expressions), so that nothing computed for one package may be reused for the next
+	files["alpha/defs.go"] += "\ntype Shared struct{ N int }\n\ntype Arr [2]int\n\nfunc NewShared() (Shared, error) { return Shared{N: 1}, nil }\n\nfunc NewArr() (Arr, error) { return Arr{1, 2}, nil }\n\nfunc NewPtr(s Shared) (*Shared, func(), error) { return &s, func() {}, nil }\n"
+	for _, n := range names {
+		q, imp := "", ""
+		switch n {
+		case "beta":
+			q, imp = "alpha.", "import \"example.com/m/alpha\"\n\n"
+		case "gamma":
+			q, imp = "al.", "import al \"example.com/m/alpha\"\n\n"
+		}
+		w := files[n+"/wire.go"]
+		w = strings.Replace(w, "import \"github.com/google/wire\"\n\n", "import \"github.com/google/wire\"\n\n"+imp, 1)
+		w += fmt.Sprintf("\nfunc InitShared() (%sShared, error) {\n\tpanic(wire.Build(%sNewShared))\n}\n\nfunc InitArr() (%sArr, error) {\n\tpanic(wire.Build(%sNewArr))\n}\n\nfunc InitPtr() (*%sShared, func(), error) {\n\tpanic(wire.Build(%sNewShared, %sNewPtr))\n}\n", q, q, q, q, q, q, q)
+		files[n+"/wire.go"] = w
 	}
 	runs := 0
 	for _, hdr := range []bool{false, true} {
